@@ -159,18 +159,24 @@ def check(ctx):
     pks = [c for c in walk_own(ub.node) if isinstance(c, ast.Call) and dotted(c.func) == 'struct.pack']
     ctx.need(len(pks) == 2, 'upload_buffer: two header packs expected')
     fmts = {fold_in(ub, c.args[0]) for c in pks}
-    fl = [i for i in walk_own(ub.node) if isinstance(i, ast.If) and 'count' in norm(i.test)]
+    lp = [l for l in walk_own(ub.node) if isinstance(l, ast.For)]
+    ctx.need(len(lp) == 1, 'upload_buffer: byte loop not found')
+    # the flush test: the `if` of the byte loop that sends a packet; the counter is the local it compares with a constant
+    fl = [i for i in walk_own(lp[0]) if isinstance(i, ast.If) and any(method_call(c, 'send_packet') for s_ in i.body for c in walk_own(s_))]
     ctx.need(len(fl) == 1, 'upload_buffer: flush test not found')
     thr = fl[0].test
+    cvs = [x.id for x in ast.walk(thr) if isinstance(x, ast.Name)]
+    ctx.need(len(cvs) == 1, 'upload_buffer: flush test is not a comparison of one counter')
+    count = cvs[0]
     ok = len(fmts) == 1 and isinstance(thr, ast.Compare) and len(thr.ops) == 1
     nbytes = None
     if ok:
         # count > k  /  k < count  /  count >= k ...
         from ..cfg import implied
         fct = implied(thr, True)[0]
-        ok = fct.op == '<' and (norm(fct.right) == 'count' or norm(fct.left) == 'count')
+        ok = fct.op == '<' and (norm(fct.right) == count or norm(fct.left) == count)
     if ok:
-        if norm(fct.right) == 'count':       # k < count (pol True)  /  not (k < count) is impossible here
+        if norm(fct.right) == count:       # k < count (pol True)  /  not (k < count) is impossible here
             k = fold_in(ub, fct.left)
             nbytes = k + 1 if fct.pol else None
         else:                               # not (count < k)  ==  count >= k
@@ -185,14 +191,20 @@ def check(ctx):
     first = [norm(x) for x in pks[0].args[1:]]
     ctx.inst('R4', ub, 'header-fields', first == [ub.params[1], '20', p, a] and canon(pks[1].args[2], scu) == '20' and norm(pks[1].args[3]) == p,
              'load-buffer header = (target, 0x14, buffer page, address); found %s' % first)
-    lp = [l for l in walk_own(ub.node) if isinstance(l, ast.For)]
-    iv = norm(lp[0].target) if lp else 'i'
+    tg = lp[0].target
+    enum = isinstance(lp[0].iter, ast.Call) and norm(lp[0].iter.func) == 'enumerate' and isinstance(tg, ast.Tuple) and len(tg.elts) == 2
+    iv = norm(tg.elts[0]) if enum else norm(tg)
     nxt = canon(pks[1].args[4], scu)
     ctx.inst('R5', ub, 'next-packet-address', nxt == canon(ast.parse('%s + %s + 1' % (a, iv), mode='eval').body, scu), 'address of the next packet is %s, expected %s + %s + 1' % (nxt, a, iv))
-    ok = len(lp) == 1 and norm(lp[0].iter) in ('range(0, len(%s))' % b, 'range(len(%s))' % b) and any(method_call(c, 'append') and norm(c.args[0]) == '%s[%s]' % (b, iv) for c in walk_own(lp[0]))
+    if enum:
+        ok = norm(lp[0].iter) in ('enumerate(%s)' % b, 'enumerate(%s, 0)' % b) and any(method_call(c, 'append') and norm(c.args[0]) == norm(tg.elts[1]) for c in walk_own(lp[0]))
+    else:
+        ok = norm(lp[0].iter) in ('range(0, len(%s))' % b, 'range(len(%s))' % b) and any(method_call(c, 'append') and norm(c.args[0]) == '%s[%s]' % (b, iv) for c in walk_own(lp[0]))
+    apps = [c for c in walk_own(lp[0]) if method_call(c, 'append')]
+    ok = ok and len(apps) == 1 and any(isinstance(s_, ast.Expr) and s_.value is apps[0] for s_ in lp[0].body)
     ctx.inst('R5', ub, 'every-byte-once-in-order', ok, 'bytes buff[0..len) are appended once each, in order')
-    cnt = [s for s in lp[0].body if aug_form(s) and aug_form(s)[0] == 'count'] if lp else []
-    rs = [s for s in walk_own(fl[0]) if isinstance(s, ast.Assign) and norm(s.targets[0]) == 'count' and not aug_form(s)]
+    cnt = [s for s in lp[0].body if aug_form(s) and aug_form(s)[0] == count] if lp else []
+    rs = [s for s in walk_own(fl[0]) if isinstance(s, ast.Assign) and norm(s.targets[0]) == count and not aug_form(s)]
     ctx.inst('R5', ub, 'count-bookkeeping', len(cnt) == 1 and aug_form(cnt[0])[1] is ast.Add and fold_in(ub, aug_form(cnt[0])[2]) == 1 and len(rs) == 1 and fold_in(ub, rs[0].value) == 0, 'count += 1 per byte, reset to 0 at each flush')
     sends = [c for c in walk_own(ub.node) if method_call(c, 'send_packet')]
     ctx.inst('R5', ub, 'final-flush', len(sends) == 2 and any(isinstance(s, ast.Expr) and s.value is sends[-1] for s in ub.node.body), 'the last (partial) packet is sent after the loop')
